@@ -21,10 +21,30 @@ import c14_docs as G  # noqa: E402
 
 LEVEL = "proof"
 SPEC_FUEL = 40
-WALK_FUEL = 60
-IMPL_FUEL = 300
 
-MUTATION_DRILLS = []
+
+def walk_fuel(docs):
+    """fuel for walks down the heap (MergeTree recursion, readback): trees can only get as deep as all documents stacked"""
+    return 10 + sum(G.count_nodes(y) for y in docs.values())
+
+
+MUTATION_DRILLS = [
+    {"mutation": "config_cow_ref.h ConfigCowRef::SetItem: copy the container only when it is null (write in place otherwise)",
+     "passes_existing_tests": False, "ran": "VERIF_REPO=/var/tmp/wt-c14 bin/check C14 quick",
+     "fired": "VIOLATION source-changed:* and spec-mismatch:* (sibling includer / included source changed), replay with the documents"},
+    {"mutation": "config_compiler.cc ParseList: walk the __patch list from the last element to the first",
+     "passes_existing_tests": False, "ran": "same", "fired": "VIOLATION spec-mismatch:* (found input)"},
+    {"mutation": "config_compiler.cc InsertByPriority: std::lower_bound instead of upper_bound (reverses the order inside a priority class)",
+     "passes_existing_tests": False, "ran": "same", "fired": "VIOLATION spec-mismatch:* (found input)"},
+    {"mutation": "config_compiler.cc AppendToList: start from an empty list instead of a copy of the existing one (/+ replaces)",
+     "passes_existing_tests": False, "ran": "same", "fired": "VIOLATION spec-mismatch:* (found input)"},
+    {"mutation": "config_data.cc ResolveListIndex: @before N resolves to N+1",
+     "passes_existing_tests": True, "ran": "same", "fired": "VIOLATION spec-mismatch:*+index* (found input), impl-model-mismatch"},
+    {"mutation": "config_compiler.cc IncludeReference::Resolve: a missing optional reference is an error",
+     "passes_existing_tests": False, "ran": "same", "fired": "VIOLATION spec-mismatch:* / saved-file-differs:* (found input)"},
+    {"mutation": "config_compiler_impl.h: kInclude = 2, kPatch = 1 (patches before includes)",
+     "passes_existing_tests": False, "ran": "same", "fired": "VIOLATION spec-mismatch:* (found input)"},
+]
 
 
 def build_tools():
@@ -69,7 +89,7 @@ def make_cases(sets, seed, norders):
         for d in ids:
             hin.append("DIRECT " + d)
             min_.append("SPEC %d %s" % (SPEC_FUEL, d))
-            min_.append("IMPL %d %d %s" % (WALK_FUEL, IMPL_FUEL, d))
+            min_.append("IMPL %d auto %s" % (walk_fuel(docs), d))
         hin.append("END")
         min_.append("END")
         meta.append(orders)
@@ -273,16 +293,25 @@ def run(ctx):
     if rmodel is None:
         ctx.violation("model-does-not-compile", "coq/CfgC does not compile", {"log": log[-4000:]}, found_input=False)
         return
-    nsets = 150 if ctx.tier == "quick" else 900
+    nrandom = 150 if ctx.tier == "quick" else 2500
     norders = 2 if ctx.tier == "quick" else 3
     sets, feats, modes = [], {}, []
-    for i in range(nsets):
+    cdir = os.path.join(vlib.VERIF, "corpus", "C14")
+    for fn in sorted(os.listdir(cdir)) if os.path.isdir(cdir) else []:
+        if fn.endswith(".json"):
+            sets.append(G.from_json(json.load(open(os.path.join(cdir, fn)))["docs"]))
+            modes.append("corpus:" + fn[:-5])
+    for name, docs in G.targeted_sets(ctx.seed):
+        sets.append(docs)
+        modes.append("targeted:" + name)
+    for i in range(nrandom):
         mode = "acyclic" if (i % 5) < 3 else "cyclic"
         docs, ft = G.gen_set(ctx.seed, i, mode)
         sets.append(docs)
         modes.append(mode)
         for k, v in ft.items():
             feats[k] = feats.get(k, 0) + v
+    nsets = len(sets)
     rc, out, err, rc2, mout, merr, meta = run_pair(ctx, rmodel, exe, sets, norders, "main")
     impl, model = parse_impl(out), parse_model(mout)
     stats = {}
@@ -305,12 +334,13 @@ def run(ctx):
     ctx.coverage.update({
         "evaluations": sum(len(d) for d in sets),
         "document_sets": nsets, "orders_per_set": norders,
+        "sets_by_origin": {k: sum(1 for m in modes if m.split(":")[0] == k) for k in ("corpus", "targeted", "acyclic", "cyclic")},
         "distinct_nontrivial": stats.get("equal", 0),
         "rule": "documents whose compile_spec run is clear (acyclic, no error) AND whose librime tree equals compile_spec; "
                 "every generated document has at least one directive-bearing set around it",
         "classification": {k: v for k, v in stats.items()},
         "generator_features": dict(sorted(feats.items())),
-        "samples": [{"mode": modes[i], "documents": docs_json(sets[i])} for i in range(0, min(nsets, 40), 13)],
+        "samples": [{"mode": modes[i], "documents": docs_json(sets[i])} for i in (0, 2, 9, 35, 36, 40) if i < nsets],
         "mutation_drills": MUTATION_DRILLS,
     })
     if not proof_ok and not ctx.violations:
@@ -322,6 +352,23 @@ def run(ctx):
 MANIFEST = {
     "category": "proof",
     "technique": "Coq models (pure specification + heap model of the implemented algorithm) with theorems, extracted and diffed against the real ConfigBuilder on generated document sets",
-    "text": "TBD",
-    "note": "TBD",
+    "text": "Properties_C14.v: (1) dependency ordering - for every sequence of insertions the per-path list is pending children, then includes, "
+            "then patches, each class in insertion order; (2) node editor algebra on trees of any size - set-then-get, last write wins, "
+            "@before/@after insertion, append associativity for lists and strings, idempotence of merging plain entries; (3) a directive-free "
+            "document compiles to itself (specification; for the implemented ConvertFromYaml: no dependency registered, region reads back as the "
+            "document); (4) no write through sharing - a write through a fresh copy-on-write reference changes no pre-existing node except the "
+            "anchor slot's container, so every tree not containing it reads back unchanged and other roots do not move; (5) termination for ALL "
+            "document sets, cyclic included - ResolveDependencies of compile_impl (port of Compile/Link with the production plugin chain) never "
+            "exhausts fuel above the explicit bound 2*(5+#scalars)*(1+max #nodes), by the duplicate-free resolve chain inside a static path universe; "
+            "(6) compile_impl = compile_spec computed on the repository's fixtures.  Tie: both models are extracted and diffed on every run against the "
+            "real config_builder component (production plugins, several compile orders in one process, memory tree and saved file) over generated "
+            "document sets from the directive grammar; compile_spec is the oracle of the failing-input search.",
+    "note": "Partial: impl_refines_spec is proved only on computed fixtures (C14_impl_refines_spec_full is stated, not proved; the general claim rests on "
+            "the correspondence of both extracted models with librime); sources_untouched is proved for a single write through a fresh ConfigCowRef chain, "
+            "not lifted through MergeTree's nested edits (index-shifting keys such as '@before last' in the middle of a path break the ownership invariant); "
+            "termination is proved for the resolve recursion; the fuel of walks down the heap (MergeTree recursion, readback) is a separate flag whose "
+            "sufficiency needs heap acyclicity, not proved (C14_compile_total_full stated). 'Cyclic' is the specification's own flag (a reference into a node "
+            "under compilation whose own directives are not vacuous); for such sets and for erroneous sets only termination and agreement with compile_impl "
+            "are compared. Trusted: Coq kernel + vm_compute, ExtrOcamlBasic extraction and the OCaml/C++/Python glue, yaml-cpp's parsing of the generated "
+            "double-quoted flow YAML. No axioms (Print Assumptions: all closed).",
 }
